@@ -154,6 +154,8 @@ where
     // Newton iterations
     let mut l = (operand / D::from_num(2)) + D::from_num(1);
     for _i in 0..D::frac_nbits() {
+        #[cfg(substrate_fixed_verif)]
+        crate::verif_hooks::tick();
         l = (l + operand / l) / D::from_num(2);
     }
     if invert {
@@ -178,6 +180,8 @@ where
     let lsb = (D::from_num(1) >> D::frac_nbits()).to_bits();
 
     while x >= TWO {
+        #[cfg(substrate_fixed_verif)]
+        crate::verif_hooks::tick();
         result += lsb;
         x = rs(x);
     }
@@ -187,6 +191,8 @@ where
     };
 
     for _i in (0..D::frac_nbits()).rev() {
+        #[cfg(substrate_fixed_verif)]
+        crate::verif_hooks::tick();
         x *= x;
         result <<= lsb;
         if x >= TWO {
@@ -248,6 +254,8 @@ where
     let mut term = operand;
 
     for i in 2..D::frac_nbits() {
+        #[cfg(substrate_fixed_verif)]
+        crate::verif_hooks::tick();
         term = if let Some(r) = term.checked_mul(operand) {
             r
         } else {
@@ -358,6 +366,8 @@ where
     T: FixedSigned + PartialOrd<ConstType> + LossyFrom<U0F128>,
 {
     for (angle, i) in ARCTAN_ANGLES.iter().cloned().zip(0..) {
+        #[cfg(substrate_fixed_verif)]
+        crate::verif_hooks::tick();
         let angle = T::lossy_from(angle);
         //if z == ZERO {
         //    break;
@@ -390,9 +400,13 @@ where
 {
     //wraparound
     while angle > PI {
+        #[cfg(substrate_fixed_verif)]
+        crate::verif_hooks::tick();
         angle -= T::lossy_from(TWO_PI);
     }
     while angle < -PI {
+        #[cfg(substrate_fixed_verif)]
+        crate::verif_hooks::tick();
         angle += T::lossy_from(TWO_PI);
     }
     //mirror
